@@ -62,7 +62,14 @@ def directed_specs(ctx, n):
     return out
 
 
+def pre_build(ctx):
+    import gen_units
+    gen_units.pre_build(ctx, "translate_grid")
+
+
 def run(ctx):
+    import gen_units
+    gen_units.g_unit(ctx, "translate_grid")
     core_units.run(ctx, which="C08")
     ctx.assumptions.append("the quantitative bound is probabilistic (it needs the generators' distributions): proved are exit-at-first-feasible, "
                            "one evaluation per candidate, every feasible point being an immediate exit and the move_random escape of move_climb")
